@@ -13,6 +13,10 @@ OpsV == {"GoNew", "Sentinel", "Errno", "New", "Newf", "NewfW", "PkgNew", "Unimpl
 \* restricted instance: several domains and several stack-bearing layers in one chain
 \* (every exception of the report carries the domain of the error as a whole)
 OpsDomains == {"New", "GoNew", "Wrap", "WithStack", "WithDomain", "HandledInDomain", "Join"}
+\* restricted instance: the same error object under two branches of a multi-cause node
+\* (every occurrence is a layer of the report)
+OpsShared == {"GoNew", "Errno", "Copy", "Wrap", "Join", "JoinPkg"}
+ShapesOneF == {<<"w1">>}
 ShapesDom == {<<"w1">>, <<"w2">>}
 ShapesV == {<<"w1">>, <<"w1", "SEP", "w2">>, <<"w2", "NL", "w1">>}
 Shapes2V == {<<"w2">>, <<"w3", "SEP", "w1">>, <<"w2", "PCT">>}
